@@ -415,7 +415,8 @@ carquet_status_t parquet_parse_file_metadata(
  *
  * @param data Thrift-encoded page header
  * @param size Size of data
- * @param header Output page header
+ * @param header Output page header (the min/max values of data page statistics
+ *               point into data and are valid as long as data is)
  * @param bytes_read Output: number of bytes consumed
  * @param error Error information
  * @return Status code
